@@ -219,15 +219,24 @@ def run_js_leg(spec, res):
                     res.violation('js-split-fields-or-warning', 'JS smart_split(%r, %r) -> %r, reference %r' % (line, dlm, (o['fields'], o['warning']), ref), {'line': line, 'dlm': dlm, 'mode': 'js'})
                 if dlm.join(o['pfields']) != line or o['pfields'] != refp[0]:
                     res.violation('js-preserve-rejoin', 'JS preserving split(%r, %r) -> %r' % (line, dlm, o['pfields']), {'line': line, 'dlm': dlm, 'mode': 'js'})
+            # the plain policies on the same lines: simple is a plain split, whitespace splits on runs of spaces, monocolumn does not split; quotes are ordinary characters
+            plain = [(l, d, pol) for l, d in chunk for pol in (('simple', 'monocolumn', 'whitespace') if d == ' ' else ('simple', 'monocolumn'))]
+            out = node.call({'op': 'split_batch', 'cases': [{'line': l, 'dlm': d, 'policy': pol} for l, d, pol in plain]})
+            for (line, dlm, pol), o in zip(plain, out['results']):
+                res.evaluations += 1
+                res.count('js_plain_policy_split_calls')
+                exp = {'simple': lambda: line.split(dlm), 'monocolumn': lambda: [line], 'whitespace': lambda: refcsv.split_whitespace(line)}[pol]()
+                if o.get('error') is not None or o['fields'] != exp or o['warning']:
+                    res.violation('js-plain-policy-split', 'JS smart_split(%r, %r, %r) -> %r, reference %r' % (line, dlm, pol, o.get('error') or (o['fields'], o['warning']), exp), {'line': line, 'dlm': dlm, 'mode': 'js-plain', 'policy': pol})
     finally:
         node.close()
 
 
 def summarize(tier, seed, m):
     return {
-        'rule': 'exhaustive lines over the class alphabet {quote, delimiter, space, other (+ first char of a multi-character delimiter)} up to %d symbols (%d for 5-symbol alphabets) per delimiter in %r, each through csv_utils.smart_split (both preserve modes, 5 policies) and through CSVRecordIterator on a one-line stream; random relabelling of "other" by Unicode; %d random long lines; JS smart_split on the same lines. the same exhaustive enumeration with other white space added to the alphabet (tab, vertical tab, NBSP: only U+0020 is padding around a quoted field) for , ; and | (py) and , ; (js); distinct_nontrivial = distinct (line, delimiter) pairs containing at least one double quote (the fast path handles the others).' % (MAXLEN[tier], MAXLEN_MULTI[tier], DELIMS, RANDOM_LINES[tier]),
+        'rule': 'exhaustive lines over the class alphabet {quote, delimiter, space, other (+ first char of a multi-character delimiter)} up to %d symbols (%d for 5-symbol alphabets) per delimiter in %r, each through csv_utils.smart_split (both preserve modes, 5 policies) and through CSVRecordIterator on a one-line stream; random relabelling of "other" by Unicode; %d random long lines; JS smart_split on the same lines (quoted, and the plain policies simple / whitespace / monocolumn). the same exhaustive enumeration with other white space added to the alphabet (tab, vertical tab, NBSP: only U+0020 is padding around a quoted field) for , ; and | (py) and , ; (js); distinct_nontrivial = distinct (line, delimiter) pairs containing at least one double quote (the fast path handles the others).' % (MAXLEN[tier], MAXLEN_MULTI[tier], DELIMS, RANDOM_LINES[tier]),
         'exhaustive': True,
-        'required': ['reader_runs', 'exhaustive_lines'],
+        'required': ['reader_runs', 'exhaustive_lines', 'js_split_calls', 'js_plain_policy_split_calls'],
         'assumptions': ['rv.model.refcsv.split_quoted is the documented dialect', 'characters outside {quote, delimiter chars, space} are interchangeable for the splitter (sampled by the relabelling leg)'],
     }
 
